@@ -271,8 +271,29 @@ def trace_validation(ck, rnd, ntraces, maxcmds):
                     expected='segments prescribed by PathSem.Group', observed=ev['segs'], driver='trace')
 
 
+def radius_extremes(ck):
+    """an arc becomes a line exactly when a radius is zero - however it is spelled - and not when it is merely tiny (too-small radii are scaled up)"""
+    for rtxt, zero in (('0', True), ('0.0', True), ('-0', True), ('0e5', True), ('.0', True), ('1e-9', False), ('.000000001', False), ('1e-12', False), ('-1e-9', False),
+                       ('1E-300', False), ('5e-324', False)):
+        for which in ('rx', 'ry', 'both'):
+            rx, ry = (rtxt if which in ('rx', 'both') else '3'), (rtxt if which in ('ry', 'both') else '3')
+            for d, (st, en) in (('M1 2A%s %s 0 0 1 11 2' % (rx, ry), (1 + 2j, 11 + 2j)), ('M1 2a%s,%s 30 1,0 10,0L0 0' % (rx, ry), (1 + 2j, 11 + 2j))):
+                ck.case(fp=('radius-extreme', d), nontrivial=True)
+                try:
+                    p = sp.parse_path(d)
+                    obs = (type(p[0]).__name__, p[0].start, p[0].end)
+                except Exception as e:      # noqa
+                    obs = e
+                exp = ('Line' if zero else 'Arc', st, en)
+                if isinstance(obs, Exception) or obs[0] != exp[0] or not (abs(obs[1] - st) <= 1e-12) or not (abs(obs[2] - en) <= 1e-12):
+                    ck.disagree(key='parse_path/zero-radius-rule', site='svgpathtools/path.py:Path._parse_path (A)',
+                                what='%r: first segment %r; a radius of %s makes it %s' % (d, obs, rtxt, 'a line' if zero else 'an arc (scaled up to fit)'),
+                                case={'d': d}, expected=repr(exp), observed=repr(obs), driver='radius')
+
+
 def run(ck):
     rnd = random.Random(ck.seed)
+    radius_extremes(ck)
     quick = ck.tier == 'quick'
     ck.rules.append('G: every terminal behaviour of PathData.tla (program over the 20 letters with explicit '
                     'arguments + expected segments) rendered in >=2 spellings and parsed by the real parse_path; '
